@@ -21,6 +21,24 @@ VERIF_ROOT = build.VERIF_ROOT
 PYTHON = sys.executable
 
 
+def _no_aslr_prefix():
+    """`setarch -R`: with address-space randomisation off, id()-based set
+    iteration inside gtirb (sets of nodes) is reproducible from run to run."""
+    import shutil
+
+    exe = shutil.which("setarch")
+    if not exe:
+        return []
+    try:
+        ok = subprocess.run([exe, "-R", "true"], capture_output=True, timeout=10).returncode == 0
+    except Exception:
+        ok = False
+    return [exe, "-R"] if ok else []
+
+
+NO_ASLR = _no_aslr_prefix()
+
+
 def log(msg):
     sys.stdout.write(msg + "\n")
     sys.stdout.flush()
@@ -63,7 +81,7 @@ def run_jobs(modname, jobs, nproc, timeout_s):
                     json.dump(job, f)
                 ef = open(os.path.join(jobdir, "err%d.txt" % idx), "w+")
                 p = subprocess.Popen(
-                    [PYTHON, "-m", "vlib.worker", modname, jf, of],
+                    NO_ASLR + [PYTHON, "-m", "vlib.worker", modname, jf, of],
                     cwd=VERIF_ROOT,
                     env=_worker_env(job.get("env")),
                     stdout=ef,
